@@ -170,11 +170,12 @@ PROPS = {
         assumptions=["SHA-256 is collision-free on the inputs used (equal digests <=> equal committed bytes is what the correspondence checks)",
                      "KNOWN FINDING F19: the property is false of the code; openings of the SAME committed bytes are reported as KNOWN-FINDING, openings of DIFFERENT bytes as a violation"]),
     'C19': dict(
-        theorems=['C19_small_ids_faithful', 'C19_small_ids_injective', 'C19_refuted'],
+        theorems=['C19_small_ids_faithful', 'C19_small_ids_injective', 'C19_refuted', 'C19_contract_faithful', 'C19_contract_injective', 'C19_contract_published'],
         runs=[func('tok', 'tokenid', 2000, 100000, 'tok_mismatches', 'tok_check', fields=[1, 2, 3], shards_quick=4, shards_thorough=16),
-              chain('adv', 'adversarial', 16, 400, 'no_check')],
+              chain('adv', 'adversarial', 16, 400, 'check_C19'),
+              chain('settle', 'settlement', 24, 800, 'check_C19')],
         fields=[3, 6, 20],
-        rule="pairs of token-id strings: small, leading zeros, mixed case, 64-bit, 2^160-1 / 2^160 / 2^160+1, multiples of 2^160 plus a small number, 256-bit, signed (0x+f, 0x-1), malformed; MsgRecord.ValidateBasic verdict, the stored identity (NormalizeHexAddress) and the denoted number (big.Int) from the real functions; chain histories compare the stored / published NFT with the model; non-trivial: both ids accepted",
+        rule="pairs of token-id strings: small, leading zeros, mixed case, 64-bit, 2^160-1 / 2^160 / 2^160+1, multiples of 2^160 plus a small number, 256-bit, signed (0x+f, 0x-1), malformed; MsgRecord.ValidateBasic verdict, the stored identity (NormalizeHexAddress) and the denoted number (big.Int) from the real functions; chain histories (contract addresses spelled with 0x, 0X, without prefix, mixed case) compare the stored / published NFT with the model and check every accepted record message against the NFT pending at the end of its block; non-trivial: both ids accepted",
         assumptions=["KNOWN FINDING F20: the property is false of the code for token ids >= 2^160 or with a sign; collapses involving such an id are reported as KNOWN-FINDING, a collapse or misrecording of ids below 2^160 as a violation"]),
     'C20': dict(
         theorems=['C20_same_committed_bytes', 'C20_entry_roundtrip', 'C20_cache_refines_spec', 'C20_retains_highest', 'C20_lookup'],
@@ -215,7 +216,7 @@ LEVELS = {
                 note=PROOF_NOTE, technique="Coq proof: simulation between two runs of the settlement machine (non-interference: frame + congruence lemmas) + paired executions on the real app"),
     'C18': dict(text="The property is FALSE of the code (known finding F19) and that is what is proved: C18_binding_refuted exhibits two accepted openings of one commitment (the deprecated topic hides part of the committed bytes), further families are given as examples, and every witness is replayed on the real message server. Proved residual guarantee, unbounded: the committed bytes together with the cut positions determine the opening; with a collision-free digest equal digests and equal cuts mean equal openings. The check reports openings of the same committed bytes as KNOWN-FINDING and any accepted opening of different bytes as a violation.",
                 note=PROOF_NOTE, technique="Coq proof of the refutation and of the residual binding theorem + differential correspondence on pairs of openings (exported Go functions and ABCI)"),
-    'C19': dict(text="The property is FALSE of the code (known finding F20): proved refutation with witnesses (2^160 and 0; signed ids). Proved, unbounded: every plain token id below 2^160 (any casing, leading zeros) is accepted and stored as exactly the number it denotes, hence two such ids collapse only if equal - via a theorem that go-ethereum's lenient hex decoder computes the hex number on well-formed input. The check reports collapses involving an id >= 2^160 or a signed id as KNOWN-FINDING and any other collapse / misrecording as a violation.",
+    'C19': dict(text="The property is FALSE of the code (known finding F20): proved refutation with witnesses (2^160 and 0; signed ids). Proved, unbounded: every plain token id below 2^160 (any casing, leading zeros) is accepted and stored as exactly the number it denotes, hence two such ids collapse only if equal - via a theorem that go-ethereum's lenient hex decoder computes the hex number on well-formed input; every accepted spelling of a contract address (0x / 0X / no prefix, any casing) is stored as the number its 40 digits denote and the published form denotes it again. The check reports collapses involving an id >= 2^160 or a signed id as KNOWN-FINDING and any other collapse / misrecording as a violation.",
                 note=PROOF_NOTE, technique="Coq proof (hex decoding as a number) + differential correspondence on token-id pairs"),
     'C20': dict(text="Unbounded theorems: feeder and chain hash the same byte string; for every publishable NFT and every hex owner answer the formatted entry parses on the chain to the same NFT and the owner's last 20 bytes (needs: decoder = hex number, trimming keeps the number, rendered addresses parse back); the tree-with-eviction cache answers every operation sequence like the specification that remembers all puts and answers from the cap highest timestamps; retained set and lookup characterised. Data-race freedom is observed with the Go race detector (partial). Correspondence through the build-tagged export of the feeder's formatter.",
                 note=PROOF_NOTE, technique="Coq proof: refinement of the cache to its specification, hex/format round trip + differential correspondence + Go race detector runs"),
